@@ -146,6 +146,8 @@ class ScalarType:
 
 BOOL = DType('bool', 'b')
 INT32 = DType('int32', 'i')
+INT16 = DType('int16', 'i')
+INT8 = DType('int8', 'i')
 INT64 = DType('int64', 'i')
 FLOAT64 = DType('float64', 'f')
 FLOAT32 = DType('float32', 'f')
@@ -173,6 +175,12 @@ def as_dtype(d, default=None):
         return INT64
     if d in ('int32', 'i4'):
         return INT32
+    if d in ('int16', 'i2'):
+        return INT16
+    if d in ('int8', 'i1'):
+        return INT8
+    if d in ('float32', 'f4'):
+        return FLOAT32
     if d is float or d in ('float', 'float64', 'double', 'f8'):
         return FLOAT64
     if d is object or d == 'object' or d == 'O':
@@ -214,6 +222,10 @@ class NDArray:
     @property
     def size(self):
         return prod(self.shape)
+
+    @property
+    def T(self):
+        return transpose(self)
 
     def at(self, idx):
         return self.fn(tuple(idx))
@@ -660,11 +672,21 @@ class NDArray:
         d = as_dtype(dtype)
         used('NP-ASTYPE')
         src = self.frozen()
+        if d.kind == self.dtype.kind and d.kind in 'fi' and _itemsize(d) is not None and _itemsize(self.dtype) is not None \
+                and _itemsize(d) < _itemsize(self.dtype):
+            # NP-ASTYPE-NARROW: a narrower type of the same kind does not hold every value: the result is a function of the value
+            # (rounding / wrapping) that is the identity only on values the narrow type represents
+            used('NP-ASTYPE-NARROW')
+            name = d.name
+            return NDArray(self.shape, lambda i: _narrow(src.fn(i), name, d.kind), d, self.mask_fn)
         if d.kind == self.dtype.kind or self.dtype.kind == 'V':
             return NDArray(self.shape, self.fn, d, self.mask_fn)
         if d.kind == 'f' and self.dtype.kind in 'ib':
             return NDArray(self.shape, lambda i: to_float(src.fn(i)), d, self.mask_fn)
         if d.kind == 'i' and self.dtype.kind == 'f':
+            if _itemsize(d) is not None:
+                used('NP-ASTYPE-NARROW')
+                return NDArray(self.shape, lambda i: _float_to_sized_int(src.fn(i), d), d, self.mask_fn)
             return NDArray(self.shape, lambda i: float_to_int(src.fn(i)), d, self.mask_fn)
         if d.kind == 'i' and self.dtype.kind == 'b':
             return NDArray(self.shape, lambda i: mk_int(zint(src.fn(i))), d, self.mask_fn)
@@ -1251,6 +1273,46 @@ def zeros(shape, dtype=None):
     return full(shape, 0 if d.kind in 'ib' else 0.0, d) if d.kind != 'b' else full(shape, False, d)
 
 
+def empty(shape, dtype=None, **kw):
+    """NP-EMPTY: an array of the given shape whose contents are unspecified (an arbitrary function of the index)"""
+    used('NP-EMPTY')
+    d = as_dtype(dtype, FLOAT64)
+    if not isinstance(shape, (tuple, list)):
+        shape = (shape,)
+    shape = tuple(shape)
+    c = core.ctx()
+    for n in shape:
+        if is_sym(n) and c.branch(zint(n) < 0):
+            raise_(ValueError, 'negative dimensions are not allowed')
+    sorts = [z3.IntSort()] * len(shape)
+    if d.kind in 'iu':
+        f = c.fresh_fn('empty', *sorts, z3.IntSort())
+        elem = lambda i: mk_int(f(*[zint(k) for k in i])) if shape else mk_int(f())
+    elif d.kind == 'b':
+        f = c.fresh_fn('empty', *sorts, z3.BoolSort())
+        elem = lambda i: mk_bool(f(*[zint(k) for k in i]))
+    elif d.kind == 'f':
+        from .floats import SFloat
+        fv, fk = c.fresh_fn('empty', *sorts, z3.RealSort()), c.fresh_fn('empty_kind', *sorts, z3.IntSort())
+
+        def elem(i):
+            k = fk(*[zint(x) for x in i])
+            core.ctx().assume(z3.And(k >= 0, k <= 3))
+            return SFloat(mk_int(k), core.mk_real(fv(*[zint(x) for x in i])))
+    else:
+        raise Unsupported(f'numpy.empty of dtype {d.name}')
+    if not shape:
+        raise Unsupported('numpy.empty of a scalar shape')
+    return NDArray(shape, elem, d)
+
+
+def empty_like(a, dtype=None, **kw):
+    a = asarray(a)
+    r = empty(a.shape, as_dtype(dtype, a.dtype)) if as_dtype(dtype, a.dtype).kind in 'iubf' and a.ndim else zeros_like(a, dtype)
+    r.order = a.order if a.ndim >= 2 else 'C'
+    return r
+
+
 def full_like(a, fill_value=None, dtype=None, **kw):
     if 'fill_value' in kw:
         fill_value = kw['fill_value']
@@ -1550,6 +1612,14 @@ def flatnonzero(a):
     return r
 
 
+def nonzero(a):
+    """numpy.nonzero of a vector: a 1-tuple holding flatnonzero(a)"""
+    a = asarray(a)
+    if a.ndim != 1:
+        raise Unsupported('numpy.nonzero of an array that is not one-dimensional')
+    return (flatnonzero(a),)
+
+
 def _recognise_enumeration(ia):
     """An array built as (index for index, item in enumerate(xs) if cond) carries the selection of the kept positions and its
     k-th element *is* the k-th kept position: then it is an ascending enumeration without repeats.  Decided with a probe index
@@ -1794,6 +1864,23 @@ def np_sum(a, axis=None, **kw):
     else:
         axes = (axis + a.ndim if axis < 0 else axis,) if isinstance(axis, int) else tuple(axis)
     if any(is_sym(a.shape[k]) for k in axes):
+        if a.ndim == 1 and a.dtype.kind in 'bi' and a.mask_fn is None:
+            # NP-SUM-ABSTRACT: the sum of an integer vector of symbolic length is an integer the executor does not compute (a ghost
+            # total, recorded with its vector); it is non-negative when no entry can be negative (decided with a probe index)
+            used('NP-SUM-ABSTRACT')
+            c = core.ctx()
+            total = c.fresh_int('sum')
+            if c.check_feasible:
+                p = mk_int(z3.Int(c._name('sum_probe')))
+                inr = z3.And(p.z >= 0, p.z < zint(a.shape[0]))
+                v = a.fn((p,))
+                if not c.feasible(z3.And(inr, zint(v) < 0)):
+                    c.assume(total >= 0)
+            reg = getattr(c, 'sums', None)
+            if reg is None:
+                reg = c.sums = []
+            reg.append((total, a))
+            return total
         raise Unsupported('sum over a symbolic extent')
     keep = [k for k in range(a.ndim) if k not in axes]
     out_shape = tuple(a.shape[k] for k in keep)
@@ -1871,6 +1958,77 @@ def column_stack(tup):
         else:
             raise Unsupported('column_stack of rank > 2')
     return concatenate(cols, axis=1)
+
+
+def _itemsize(d):
+    import re
+    m = re.search(r'(\d+)$', getattr(d, 'name', ''))
+    return int(m.group(1)) // 8 if m else None
+
+
+def _narrow(v, name, kind):
+    c = core.ctx()
+    if kind == 'f':
+        from .floats import FIN, SFloat, to_sfloat
+        x = to_sfloat(v)
+        f = z3.Function('round_to_' + name, z3.RealSort(), z3.RealSort())
+        over = z3.Function('overflows_' + name, z3.RealSort(), z3.IntSort())
+        kz, vz = zint(x.kind), core.zreal(x.val)
+        k2 = z3.If(kz == FIN, over(vz), kz)          # a finite value may round to a finite value or overflow to an infinity
+        c.assume(z3.And(over(vz) >= 0, over(vz) <= 3))
+        return SFloat(mk_int(k2), core.mk_real(f(vz)))
+    f = z3.Function('wrap_to_' + name, z3.IntSort(), z3.IntSort())
+    bits = 8 * _itemsize(DType(name, kind))
+    lo, hi = -(2 ** (bits - 1)), 2 ** (bits - 1) - 1
+    vz = zint(v)
+    c.assume(z3.And(f(vz) >= lo, f(vz) <= hi, z3.Implies(z3.And(vz >= lo, vz <= hi), f(vz) == vz)))
+    return mk_int(f(vz))
+
+
+def _float_to_sized_int(v, d):
+    """astype(float -> intN): truncation toward zero for finite values within the range of the type; anything else (NaN, infinities, out of
+    range) gives an unspecified integer of the type (numpy: undefined, with a RuntimeWarning)"""
+    from .floats import FIN, to_sfloat
+    c = core.ctx()
+    x = to_sfloat(v)
+    bits = 8 * _itemsize(d)
+    lo, hi = -(2 ** (bits - 1)), 2 ** (bits - 1) - 1
+    vz = core.zreal(x.val)
+    tr = z3.If(vz >= 0, z3.ToInt(vz), -z3.ToInt(-vz))
+    g = z3.Function('unspecified_' + d.name, z3.RealSort(), z3.IntSort(), z3.IntSort())
+    kz = zint(x.kind)
+    junk = g(vz, kz)
+    c.assume(z3.And(junk >= lo, junk <= hi))
+    return mk_int(z3.If(z3.And(kz == FIN, tr >= lo, tr <= hi), tr, junk))
+
+
+def can_cast(from_, to, casting='safe'):
+    """NP-CAN-CAST: numpy's own casting table for named dtypes"""
+    import numpy as _real
+    used('NP-CAN-CAST')
+    a = from_.dtype if isinstance(from_, NDArray) else as_dtype(from_)
+    b = as_dtype(to)
+    try:
+        return bool(_real.can_cast(_real.dtype(a.name), _real.dtype(b.name), casting=casting))
+    except TypeError:
+        raise Unsupported(f'numpy.can_cast({a.name}, {b.name}): not a numpy dtype name')
+
+
+class _CClass:
+    """numpy.c_[a, b, ...]: one-dimensional arrays of one length as the columns of a 2-D array (NP-COLUMN-STACK)"""
+    _pyvc_model_class = True
+
+    def _getitem(self, key):
+        if not isinstance(key, tuple):
+            key = (key,)
+        if any(isinstance(k, (slice, str)) for k in key):
+            raise Unsupported('numpy.c_ with slices / directives')
+        arrs = [asarray(k) for k in key]
+        n = arrs[0].shape[0]
+        for a in arrs[1:]:
+            if a.ndim >= 1 and not (same(a.shape[0], n) or known_true(s_eq(a.shape[0], n))):
+                raise_(ValueError, 'all the input array dimensions except for the concatenation axis must match exactly')
+        return column_stack(arrs)
 
 
 class SubDType:
@@ -2189,7 +2347,8 @@ class NumpyModule:
     full_like = staticmethod(full_like)
     zeros_like = staticmethod(zeros_like)
     ones_like = staticmethod(ones_like)
-    empty_like = staticmethod(zeros_like)
+    empty_like = staticmethod(empty_like)
+    empty = staticmethod(empty)
     arange = staticmethod(arange)
     indices = staticmethod(indices)
     prod = staticmethod(np_prod)
@@ -2203,12 +2362,15 @@ class NumpyModule:
     any = staticmethod(np_any)
     all = staticmethod(np_all)
     sum = staticmethod(np_sum)
+    nonzero = staticmethod(nonzero)
     flatnonzero = staticmethod(flatnonzero)
     sort = staticmethod(np_sort_any)
     unique = staticmethod(np_unique)
     pad = staticmethod(pad)
     meshgrid = staticmethod(meshgrid)
     column_stack = staticmethod(column_stack)
+    c_ = _CClass()
+    can_cast = staticmethod(can_cast)
     fromiter = staticmethod(fromiter)
     nditer = NdIter
     append = staticmethod(np_append)
